@@ -32,7 +32,7 @@ pub fn host_resolves() -> HashMap<u64, V> {
     m
 }
 
-fn shape(e: &E, depth: usize) -> String {
+pub fn shape(e: &E, depth: usize) -> String {
     let name = |e: &E| -> String {
         match e {
             E::Int(_) => "Int".into(),
@@ -80,7 +80,7 @@ fn shape(e: &E, depth: usize) -> String {
     if kids.is_empty() { name(e) } else { format!("{}({})", name(e), kids.iter().map(|k| shape(k, depth - 1)).collect::<Vec<_>>().join(",")) }
 }
 
-fn children(e: &E) -> Vec<&E> {
+pub fn children(e: &E) -> Vec<&E> {
     match e {
         E::Un(_, x) | E::Group(x) | E::Nested(x) => vec![&**x],
         E::Bin(_, a, b) => {
@@ -107,7 +107,7 @@ fn children(e: &E) -> Vec<&E> {
     }
 }
 
-fn has_reapply(e: &E) -> bool {
+pub fn has_reapply(e: &E) -> bool {
     matches!(e, E::Reapply(_)) || children(e).iter().any(|c| has_reapply(c)) || matches!(e, E::Reapply(_))
 }
 
